@@ -3,7 +3,7 @@ SPEC = dict(
     title='Stored characterisation is reused; fans are analysed once',
     props_file='Props/C15.v', props_mod='Props.C15',
     proof_files=['Proofs/Startup.v', 'Drv/Startup.v'],
-    tie_vo=[],
+    tie_vo=['Proofs/LeafTie2_applyPwmMapping.vo'],
     drivers=[dict(name='startup', drv_mod='Drv.Startup', drv_file='Drv/Startup.v', shard=30,
                   args={'quick': ['n=110', 'nc=10'], 'thorough': ['n=1500', 'nc=80']}, timeout={'quick': 600, 'thorough': 3000})],
     rule='systematic grid (fan kind hwmon/file/cmd x PWM readable x RPM sensor x configured pwmMap x configured minPwm+maxPwm '
